@@ -484,90 +484,6 @@ def account(stats, cfg, it, r):
         stats["nontrivial"].add(it.raw)
 
 
-# ---------------- drafty ext fuzz ----------------
-
-def drafty_cases(ctx):
-    rng = ctx.rng
-    cases = []
-    for d in G.DRAFTY + G.ANY:
-        cases.append(d)
-    texts = ["", "a", "hello world", "a\U0001F600b́c", "́́", "\U0001F468‍\U0001F469‍\U0001F467", "x" * 300, "\u0000", "\ud83d"]
-    offs = [0, 1, 2, -1, -100, 5, 299, 300, 301, 2 ** 31 - 1, 2 ** 31, 2 ** 62, 2 ** 62 + 1, 2 ** 63 - 2, 2 ** 63 - 1, -2 ** 63, -2 ** 62, 1.5, "1", None]
-    tps = ["ST", "EM", "DL", "CO", "BR", "LN", "MN", "HT", "HD", "IM", "EX", "FM", "RW", "BN", "VC", "VD", "QQ", "", "junk", 5, None]
-    for _ in range(600 if ctx.tier == "quick" else 20000):
-        txt = G.pick(rng, texts)
-        fmt = []
-        for _ in range(rng.randrange(0, 5)):
-            f = {}
-            if rng.random() < 0.9:
-                f["at"] = G.pick(rng, offs)
-            if rng.random() < 0.9:
-                f["len"] = G.pick(rng, offs)
-            if rng.random() < 0.6:
-                f["tp"] = G.pick(rng, tps)
-            if rng.random() < 0.5:
-                f["key"] = G.pick(rng, offs)
-            fmt.append(f if rng.random() < 0.95 else G.pick(rng, [5, "x", None, []]))
-        ent = []
-        for _ in range(rng.randrange(0, 4)):
-            e = {"tp": G.pick(rng, tps)}
-            if rng.random() < 0.7:
-                e["data"] = G.pick(rng, [{}, {"mime": "image/png", "val": "AAAA", "name": "x", "width": -1, "height": "x"}, {"val": 5}, 5, None, {"url": "http://x", "ref": 5},
-                                          {"state": "started", "incoming": "x", "duration": -5}, {"name": 5, "act": "url", "val": None}])
-            ent.append(e if rng.random() < 0.95 else G.pick(rng, [5, "x", None]))
-        d = {"txt": txt, "fmt": fmt, "ent": ent}
-        if rng.random() < 0.1:
-            d["txt"] = G.pick(rng, [5, None, [], {}])
-        cases.append(d)
-    out = []
-    for d in cases:
-        raw = json.dumps(d, ensure_ascii=False).encode("utf-8", "surrogatepass")
-        for ln in (0, 1, 7, 80, -1, 2 ** 31):
-            out.append("D %d %s" % (ln, raw.hex() or "-"))
-    # structured stream: an otherwise valid document with ONE span whose (at, len) is taken from the full
-    # cross product of boundary values (a document with several bad spans is rejected at the first one, so
-    # the random stream above rarely reaches the code behind the range checks)
-    ints = [v for v in offs if isinstance(v, int)]
-    for txt in ("hello", ""):
-        for tp in ("ST", "BR", None):
-            for at in ints:
-                for ln_ in ints:
-                    f = {"at": at, "len": ln_}
-                    d = {"txt": txt, "fmt": [{"at": 0, "len": len(txt), "tp": "EM"}, f] if txt else [f]}
-                    if tp is None:
-                        f["key"] = 0
-                        d["ent"] = [{"tp": "MN", "data": {"val": "usrX"}}]
-                    else:
-                        f["tp"] = tp
-                    raw = json.dumps(d).encode()
-                    for pl in (0, 7):
-                        out.append("D %d %s" % (pl, raw.hex()))
-    return out
-
-
-def drafty(ctx, stats):
-    ok, out = ctx.build_ext()
-    if not ok:
-        ctx.violation("corr", "harness-build-broken", "ext driver no longer builds: " + out[-1500:], {"correspondence": "build of harness/ext"})
-        return
-    cases = drafty_cases(ctx)
-    rc, res, err = ctx.run_ext("c13", cases)
-    if rc != 0 or len(res) != len(cases):
-        ctx.violation("corr", "driver-crashed", "drafty ext driver failed rc=%s %s" % (rc, err[-1500:]), {"correspondence": "ext driver"})
-        return
-    n_p = 0
-    outcomes = {}
-    for c, r in zip(cases, res):
-        key = r.split()[0] if r else "?"
-        outcomes[key] = outcomes.get(key, 0) + 1
-        if r.startswith("PANIC"):
-            n_p += 1
-            raw = bytes.fromhex(c.split()[2]) if c.split()[2] != "-" else b""
-            ctx.violation("monitor", "drafty-panic", "drafty.PlainText/Preview panics on a client-controlled document (content is rendered into push previews in the topic goroutine): %s on %s"
-                          % (r[:200], raw.decode("utf-8", "replace")[:300]), {"case": c, "impl": r, "document": raw.decode("utf-8", "replace")})
-    stats["drafty"] = {"evaluations": len(cases), "panics": n_p, "outcomes": outcomes}
-
-
 # ---------------- model correspondence (proof half) ----------------
 
 def run(ctx):
@@ -585,7 +501,8 @@ def run(ctx):
     fuzz(ctx, stats)
     t_fuzz = time.time() - t0
     if not ctx.replay:
-        drafty(ctx, stats)
+        from props import c13drafty
+        c13drafty.run(ctx, stats, have_model=have_coq)
     if have_coq and not ctx.replay:
         from props import c13model
         c13model.correspondence(ctx, stats)
